@@ -11,7 +11,7 @@
    number of threads must stay below NB = 2^24 (with 2^24 readers in flight rin - rout wraps to 0 and
    a writer would walk in).  The total number of read/write cycles is NOT bounded: the counters wrap. *)
 From PV Require Import Base.Tac Base.ListX RWLock.RWLockDefs RWLock.RWLockBase RWLock.RWLockInv
-  RWLock.RWLockSafety RWLock.RWLockProgress RWLock.RWLockFair RWLock.RWLockTheorems.
+  RWLock.RWLockSafety RWLock.RWLockProgress RWLock.RWLockFair RWLock.RWLockWait RWLock.RWLockTheorems.
 Local Open Scope Z_scope.
 
 (* ---- safety ---- *)
@@ -110,18 +110,50 @@ Print Assumptions C33_writer_bypass.
 
 (* writers enter in ticket order: while a writer waits for wout (first loop of wrlock), at most
    as many writers enter as there are tickets before its own *)
-(* NOT proved (C33 phase-fairness is therefore partial): a bound on the READERS that overtake a
-   writer during its first loop.  Full statement: a writer with k tickets before its own is
-   overtaken by at most k writers and k+1 reader phases, each made of readers that were already
-   waiting when the phase began.  Proved: the k writers (below), and for the last phase the
-   theorem C33_writer_bypass above. *)
-Theorem C33_writer_fifo_partial : forall a b progs sched s t tk, Z.of_nat (length progs) < NB ->
+Theorem C33_writer_fifo : forall a b progs sched s t tk, Z.of_nat (length progs) < NB ->
   let c := reach a b progs sched in
   ww_waits t tk c -> stays (ww_waits t tk) c s ->
   wents (log (run c s)) <= wents (log c) + ahead c tk /\
   ahead c tk <= (tk - wout c) mod M32 < cnt is_A (thrs c).
 Proof. exact writers_fifo. Qed.
-Print Assumptions C33_writer_fifo_partial.
+Print Assumptions C33_writer_fifo.
+
+(* READERS overtaking a writer during its first loop.  The schedule-independent statement "a
+   writer with k tickets before its own is overtaken by at most k+1 reader phases, each made only of
+   readers already waiting when the phase began" is FALSE of the code: between the moment a writer's
+   ticket is served and its fetch_add on rin (and between the fetch_and of the previous writer and
+   that fetch_add) the low bits of rin are clear, and readers that arrive then enter at once, as many
+   times as they like while that writer is not scheduled.  Witness: writer 0 stalled just before
+   setting its bits, writer 1 queued behind it (k = 1), no reader present; reader 2 then completes
+   9 read cycles: more than (k+1) * (number of threads) entries.  (Replayed on the real code by
+   corpus/C33/phase.txt; it is the published algorithm's behaviour, not a safety or progress defect:
+   the window is closed by at most 3 steps of the two writers involved.) *)
+Theorem C33_writer_reader_phases_refuted :
+  exists progs sched s t tk,
+    Z.of_nat (length progs) < NB /\
+    let c := reach 0 0 progs sched in
+    ww_waits t tk c /\ stays (ww_waits t tk) c s /\
+    (tk - wout c) mod M32 = 1 /\ cnt is_rfl (thrs c) = 0 /\
+    rents (log (run c s)) > rents (log c) + ((tk - wout c) mod M32 + 1) * Z.of_nat (length progs).
+Proof. exact reader_phase_bound_refuted_reach. Qed.
+Print Assumptions C33_writer_reader_phases_refuted.
+
+(* What the code does give (exact in k, linear in the number of threads): bounded WAITING under
+   fair rounds.  A writer that holds a ticket with k = toff tickets before its own (first or second
+   loop of wrlock) has entered the critical section after (3N+8)(k+1) rounds in each of which every
+   thread is scheduled at least once - whatever the other threads run and however long their
+   programs are: per ticket, the served writer needs 2 steps to set its bits, the readers counted in
+   its ticket at most 3 steps each to leave, then 4 steps to enter, leave, clear its bits and pass
+   the ticket on; readers arriving after the bits are set are held back (C33_writer_bypass). *)
+Theorem C33_writer_bounded_wait : forall a b progs sched rounds t, Z.of_nat (length progs) < NB ->
+  let c := reach a b progs sched in
+  let N := Z.of_nat (length progs) in
+  waitingW t c ->
+  (forall s, In s rounds -> covers (length progs) s) ->
+  (3 * N + 8) * (toff c t + 1) <= Z.of_nat (length rounds) ->
+  ents t (log c) < ents t (log (run c (concat rounds))).
+Proof. exact writer_bounded_wait. Qed.
+Print Assumptions C33_writer_bounded_wait.
 
 (* ---- non-vacuity ---- *)
 Definition pcs (c : cfg) : list pc := map t_pc (thrs c).
@@ -138,4 +170,10 @@ Example C33_example_phases :
   all_done (run c (concat (repeat [0; 1; 2]%nat 15))) = true /\
   rev (log (run c (concat (repeat [0; 1; 2]%nat 15)))) =
     [Enter 0%nat KR; Exit 0%nat KR; Enter 1%nat KW; Exit 1%nat KW; Enter 2%nat KR; Exit 2%nat KR].
+Proof. vm_compute. repeat split; reflexivity. Qed.
+(* the hypotheses of C33_writer_bounded_wait are met: writer 1 queued behind writer 0 (k = 1) *)
+Example C33_example_queued_writer :
+  let c := reach 0 0 [[KW]; [KW]; [KR; KR]] [0; 0; 1; 1; 2; 2]%nat in
+  pcs c = [PW1 0; PWw 1; PRcs] /\ toff c 1%nat = 1 /\ rho c 1%nat = 32 /\
+  ents 1%nat (log (run c (concat (repeat [2; 1; 0]%nat 17)))) = 1.
 Proof. vm_compute. repeat split; reflexivity. Qed.
